@@ -463,6 +463,16 @@ func (g *rig) attempt(c Case) (main outcome, fs []finding) {
 	return main, fs
 }
 
+func stage(fs []finding, st string) []finding {
+	var out []finding
+	for _, f := range fs {
+		if f.stage == st {
+			out = append(out, f)
+		}
+	}
+	return out
+}
+
 func sig(fs []finding) string {
 	var sb strings.Builder
 	for _, f := range fs {
@@ -490,8 +500,14 @@ func runCase(r *ev.Run, g *rig, c Case) (key string) {
 			m2, f2 := g.attempt(c)
 			if i == 0 {
 				fresh, fmain = f2, m2
-			} else if sig(f2) != sig(fresh) {
+			} else if sig(stage(f2, "main")) != sig(stage(fresh, "main")) {
 				ev.Fatalf("case %s: verdict not reproducible on fresh pools: %q vs %q", c, sig(fresh), sig(f2))
+			} else if sig(f2) != sig(fresh) {
+				// the probe's outcome differs between runs: a pooled connection that sits idle
+				// for more than 4 s (heavily loaded machine) is pinged and replaced by the pool,
+				// which hides leftovers. Only what fails identically every time is reported.
+				fresh = stage(fresh, "main")
+				r.Add("unstable_probe_findings_dropped", 1)
 			}
 		}
 		if sig(fresh) != sig(fs) {
